@@ -253,6 +253,7 @@ type Finding struct {
 	What       string `json:"what"`
 	Reproducer string `json:"reproducer"`
 	Signature  string `json:"signature"` // substring that the failure message of the reproducer must contain
+	Race       string `json:"race,omitempty"` // for data-race findings: "<funcA> <-> <funcB>" (innermost rain frames, sorted)
 }
 
 var (
@@ -316,3 +317,14 @@ func Die[C any](unit string, c C, msg string) {
 
 // Replaying reports whether this process re-runs a stored case (exclusions of open findings do not apply then).
 func Replaying() bool { return os.Getenv("VERIF_REPLAY") != "" }
+
+// OpenRaceFinding returns the id of the open known finding whose "race" signature equals sig ("" if none).
+func OpenRaceFinding(sig string) string {
+	FindingOpen("") // load
+	for id, f := range findings {
+		if f.Status == "open" && f.Race != "" && f.Race == sig {
+			return id
+		}
+	}
+	return ""
+}
